@@ -80,6 +80,16 @@ CHECKS = {
    technique="laws stated in TLA+ (LenLaws.tla); observations (S, T) recorded from the real code validated line by line by TLC",
    text="For each schema text S (printed SchemaText projects under 5 layouts incl. comments and CRLF/CR, root forms: references, choices, annotated scalars, containers; schema literals of the repository's tests) and follow-up T (every first byte except / and # x 8 rests) the harness records len(S), Len(S), verdicts and ASTs of S and S[:Len(S)], Len of the prefix and Len(S.newline.T); TLC validates every record against the four laws of LenLaws.tla.",
    note="S without a root value (blank, comment or annotation only) is skipped. The prefix law is demanded of accepted S and of rejected S that Len() covers entirely (a rejected S with text after the value is itself 'a larger text'). S that stops inside a user comment is not complete."),
+ "C07": dict(
+   category="model_checking", design_ref="DESIGN.md §3 C07",
+   technique="TLA+ inheritance model (AllOf.tla: Merge, refusal classes, TLC-checked merge lemmas) emitting every project with its merged key list; replay on Check/Example/compiled tree/OpenAPI property listing",
+   text="AllOf.tla defines Merge (own keys then the listed types' keys, transitively, in list order, with origin and optional flag) and the refusal classes (missing, non-object, cyclic, duplicate key, conflicting additionalProperties with true = any) over a root object and 2-3 named types each withheld / non-object / object with allOf lists that may name themselves and each other; TLC checks MergeHasNoDuplicateKeys, MergeStable, NoListNoChange on all ~450k (quick) projects. Replay: refused iff a class applies, with the code of a present class; otherwise Example() keys, the compiled root's properties (key, InheritedFrom, optional) and openapi.Dereference's PropertiesInfos (keys, optional) equal the merged list.",
+   note="With a structural defect present a duplicate/conflict code is also accepted (the merge of the remaining objects is then undefined). Cycle-only projects are replayed 1 in 8 (quick). Inherited keys may be marked with the listed parent or the declaring type."),
+ "C05": dict(
+   category="model_checking", design_ref="DESIGN.md §3 C05",
+   technique="TLA+ reference-position model (RefPositions.tla: Used, Reach, Missing) emitting every hygienic project x registration subset; replay on UsedUserTypes/Check with and without an unused type",
+   text="RefPositions.tla lets the root mention @a/@b/@c in all eight positions (value shortcut, @a | @b, key shortcut, type, or by name, or rule-set, allOf, additionalProperties), lets type definitions mention each other one level further, registers every subset of the definitions and optionally an unused valid type; TLC checks UsedIsReached / MissingOnlyIfWithheld and emits ~75k (quick) projects with Used and Missing. Replay: UsedUserTypes() as a set without duplicates = Used; Check() returns 1302 naming a member of Missing iff Missing is not empty; every observable is identical with and without the unused type.",
+   note="Generator hygiene: kinds fit positions, mentions among types are acyclic, unreached registered types mention registered names only, no additionalProperties conflict through allOf."),
 }
 
 REASON_PENDING = "check not built yet in this round (design in DESIGN.md §3); no claim is made"
